@@ -516,6 +516,7 @@ class History(object):
         if not changes:
             return None
         before = dict((a, norm(_plain_copy(getattr(inst, a)))) for a in changes)
+        stored_before = dict((a, norm(_plain_copy(self.get_shadow(pkey, ckey, sp.by_attr[a])))) for a in changes)
         null_static = [c.attr for c in sp.static if c.attr not in changes and norm(getattr(inst, c.attr)) is None]
         style = rng.random()
         inplace = []
@@ -555,7 +556,8 @@ class History(object):
                     del self.emptied[(pkey, ckey, a)]      # an explicit assignment or a non-null value resets previous_value
             if a in inplace and norm(changes[a]) is None and before.get(a) is not None:
                 self.emptied[(pkey, ckey, a)] = before[a]
-        self.step_mods[(pkey, ckey)] = {"changes": changes, "before": before, "null_static": null_static, "stale_previous": stale_prev}
+        self.step_mods[(pkey, ckey)] = {"changes": changes, "before": before, "null_static": null_static, "stale_previous": stale_prev,
+                                        "stored_before": stored_before}
         return [(pkey, ckey, inst)]
 
     def op_rekey(self):
@@ -929,8 +931,8 @@ def classify(h, P, problem, statements):
                     continue
                 if ck is None and a in mod["changes"]:
                     new, before = norm(mod["changes"][a]), mod["before"].get(a)
-                    if new is None and before is not None and same(g, before):
-                        slug = K_STATIC_NULL
+                    if new is None and g is not None and same(g, mod["stored_before"].get(a)):
+                        slug = K_STATIC_NULL            # nothing was sent: the stored value is what it was before the step
                     elif isinstance(new, dict) and isinstance(before, dict) and any(k not in new for k in before) and same(g, _merged(before, new)):
                         slug = K_STATIC_NULL
                 if a in mod["null_static"] and g is None and e is not None and a in deleted_columns(P, statements):
